@@ -344,6 +344,23 @@ def bounded(ctx, b):
         return all(not (0 < c_.end - c_.start < 50000) for c_ in caps), {"captions": [(c_.start, c_.end) for c_ in caps]}
     b.guard(("flash",), three, sample={"case": "EOC followed two frames later by EDM"})
 
+    # the LAST caption of a stream shown for a single frame and then erased is a flash like any other
+    for drop, dbl in itertools.product([True, False], repeat=2):
+        words = [("ENM", True), ("RCL", True), ("PAC", True), ("T1", False), ("EOC", True)] + [("NUL", False)] * 40 + [("EDM", True)] + \
+                [("NUL", False)] * 20 + [("RCL", True), ("PAC", True), ("T2", False), ("EOC", True), ("EDM", True)]
+
+        def last_flash(words=words, drop=drop, dbl=dbl):
+            doc, timeline = encode([(60, words)], drop, dbl)
+            ref = reference_times(timeline, drop, 0)
+            flashes = any(0 < e - s < 50000 for s, e in ref)
+            try:
+                cs = _SHARED_READER.read(doc)
+            except CaptionReadTimingError:
+                return flashes, {"raised_but_no_flash": [(float(s), float(e)) for s, e in ref]}
+            got = [(c_.start, c_.end) for c_ in cs.get_captions("en-US")]
+            return not flashes, {"flash_caption_returned": got, "reference": [(float(s), float(e)) for s, e in ref]}
+        b.guard(("last_flash", drop, dbl), last_flash, sample={"case": "last caption erased right after it was shown", "drop": drop, "doubled": dbl})
+
 
 def run(ctx):
     P = ctx.prove
